@@ -7,8 +7,8 @@
     R r | G g | L l ic | C c ic | Y imm | Z imm | V kind val | I kind val | CPE k alpha
     | X c0 r1 l1 c1 | FB rs rp cp lp | S n t1 … tn | P n t1 … tn
     ic   = `-` (no initial condition) or a rational
-    imm  = k:a (constant a) | s:a (a·s) | i:a (a/s) | p:a:b (a/(s+b))     -- evaluated at the point s here
-    kind = gen | dc | step | sdom ;  val = for gen/dc/step a rational a (Laplace value a/s), for sdom an `imm`
+    imm  = k:a (constant a) | s:a (a·s) | i:a (a/s) | p:a:b (a/(s+b)) | q:a:w (a·s/(s²+w²))   -- evaluated at the point s here
+    kind = gen | dc | step | sdom | ac ;  val = for gen/dc/step a rational a (Laplace value a/s), for sdom / ac an `imm`
 -/
 import Lcapy.Model.CRat
 import Lcapy.Model.OnePort
@@ -38,17 +38,22 @@ def parseImm (N : Num K) (s : K) (tok : String) : Option K :=
       let a ← parseRat a
       let b ← parseRat b
       pure (N.ofRat a / (s + N.ofRat b))
+  | ["q", a, w] => do          -- Laplace transform of a·cos(w t): a·s/(s² + w²)
+      let a ← parseRat a
+      let w ← parseRat w
+      pure (N.ofRat a * s / (s * s + N.ofRat w * N.ofRat w))
   | _ => none
 
 def parseIc (N : Num K) (tok : String) : Option (Option K) :=
   if tok = "-" then some none else (parseRat tok).map (fun a => some (N.ofRat a))
 
 def parseKind : String → Option Src
-  | "gen" => some .gen | "dc" => some .dc | "step" => some .step | "sdom" => some .sdom | _ => none
+  | "gen" => some .gen | "dc" => some .dc | "step" => some .step | "sdom" => some .sdom | "ac" => some .ac | _ => none
 
 def parseSrc (N : Num K) (s : K) (k : Src) (tok : String) : Option K :=
   match k with
   | .sdom => parseImm N s tok
+  | .ac => parseImm N s tok
   | _ => (parseRat tok).map (fun a => N.ofRat a / s)
 
 mutual
@@ -99,7 +104,7 @@ def showIc (N : Num K) : Option K → String
   | some x => N.show_ x
 
 def showKind : Src → String
-  | .gen => "gen" | .dc => "dc" | .step => "step" | .sdom => "sdom"
+  | .gen => "gen" | .dc => "dc" | .step => "step" | .sdom => "sdom" | .ac => "ac"
 
 def showLeaf (N : Num K) : Leaf K → String
   | .R r => s!"R {N.show_ r}"
